@@ -5,7 +5,9 @@ value loaded from *dmaxp at entry.  Decided:
  B  every load and store through the string cursor lies inside [0, *dmaxp) elements (capcheck obligations);
  T  the continuation handed back is consistent: at every store pair (*ptr = q, *dmaxp = n) off(q) + n <= *dmaxp at entry;
  Z  every store into the string writes the constant 0;
- P  every path that returns a possibly non-null token has stored *ptr.
+ P  every path that returns a possibly non-null token has stored *ptr;
+ Q  where the continuation is set behind the scan cursor (cursor + 1), the element at the cursor was overwritten with 0 by a dominating store
+    (a nulled delimiter) -- the continuation never steps over the string's own terminator.
 NOT decided: that the call sequence yields each maximal delimiter-free substring exactly once (a property of histories and contents), and
 that all STRTOK_DELIM_MAX_LEN delimiters take part in the comparison."""
 import os
@@ -157,7 +159,25 @@ def analyse(ck, prog, name, unit, report):
             line = fn.term(bb).get("line")
             report("C14:token-without-context:%s:%s" % (base, "value" if o.get("k") == "v" else "const"), "P-context-stored", "%s:%s" % (fn.file, line),
                    "%s can return a token on a path that never stores the continuation pointer *ptr: the next call resumes from a stale context" % base)
-    return dict(bounds_obligations=nB, continuation_pairs=nT, delimiter_limit_exits=nD, stores_into_string=nZ, token_returns=nP)
+    # Q: the continuation never steps over an element this call did not overwrite with 0 (it may be the string's own terminator:
+    #    resuming behind it makes later calls scan whatever follows the string)
+    nQ = 0
+    zero_stores = [i for i in fn.insts() if i["op"] == "store" and i["ops"][0].get("k") == "c" and i["ops"][0]["v"] == 0 and labels_of(i["ops"][1], dstr, None)]
+    for i in fn.insts():
+        if not (i["op"] == "store" and i["ops"][1].get("k") == "v" and i["ops"][1]["id"] == ptr["id"] and i["ops"][0].get("k") == "v"):
+            continue
+        q = fn.defs.get(i["ops"][0]["id"])
+        if q is None or q["op"] != "getelementptr" or not labels_of(q["base"], dstr, None) or q.get("terms"):
+            continue            # the cursor itself (or the null pointer): nothing is skipped
+        nQ += 1
+        step = q.get("coff", 0)
+        cur = q["base"].get("id")
+        ok = step == unit and any(z["ops"][1].get("k") == "v" and z["ops"][1]["id"] == cur and fn.inst_dominates(z, i) for z in zero_stores)
+        if step > 0 and not ok:
+            report("C14:continuation-skips-element:%s:+%d" % (base, step // unit), "Q-continuation-behind-nulled-delimiter", fn.loc(i),
+                   "%s: *ptr is set %d element(s) behind the scan cursor although the element at the cursor was not overwritten with 0 on this path: if it is the string's terminator "
+                   "the next call scans (and modifies) what follows the string" % (base, step // unit))
+    return dict(bounds_obligations=nB, continuation_pairs=nT, delimiter_limit_exits=nD, stores_into_string=nZ, token_returns=nP, continuation_steps=nQ)
 
 
 def run(ck):
@@ -171,7 +191,7 @@ def run(ck):
     if tot < 30:
         ck.fail_broken("only %d obligations generated for the tokenizers (< 30)" % tot)
     cov = dict(explanation="strtok_s and wcstok_s: the tokenized string is the merge of dest and *ptr with capacity *dmaxp at entry. Per function: bounded loads/stores through the string "
-               "cursor (B), consistency of every (*ptr, *dmaxp) pair handed back (T), only zeros stored into the string (Z), *ptr stored on every path that returns a token (P). "
+               "cursor (B), consistency of every (*ptr, *dmaxp) pair handed back (T), only zeros stored into the string (Z), *ptr stored on every path that returns a token (P), the continuation steps only over an element nulled by this call (Q). "
                "Not decided: that the sequence of calls returns each maximal token exactly once.",
                obligations=tot, discharged=tot - len({r["key"] for r in ck.reports}), functions=per, frontend=info,
                summary="%d obligations over 2 tokenizers" % tot)
